@@ -1,1 +1,2 @@
-
+pub mod real;
+pub mod vm;
